@@ -52,6 +52,11 @@ def instances(tier, seed):
     for xi, (xs, xo) in enumerate([(['a', 'b'], ['b', 'c']), (['a', 'b'], ['b', 'a']), ([], ['c']), (['a'], [])]):
         add(f"ext:bond:extra{xi}", Ns=2, No=2, kind='bond', S=1, topo=0, tables='both', mode='default',
             extra_s=xs, extra_o=xo, cost=4)
+    # extra columns held as numpy fixed-width strings (as the constructor and the CIF reader build them), longer values arriving
+    add("ext:bond:extra-fixed-width-same-labels", Ns=2, No=2, kind='bond', S=1, topo=0, tables='both', mode='default', extra_s=['a', 'b'], extra_o=['a', 'b'],
+        fixed_width=True, cost=4)
+    add("ext:bond:extra-fixed-width-subset-labels", Ns=2, No=2, kind='bond', S=1, topo=0, tables='both', mode='default', extra_s=['a', 'b'], extra_o=['b'],
+        fixed_width=True, cost=4)
     # repeated extension with the same fragment (as replace does): extend_types once, extend twice
     add("ext:bond:twice", Ns=3, No=2, kind='bond', S=1, topo=0, tables='both', mode='twice', cost=60)
     add("ext:bond:twice-same-map-object", Ns=3, No=2, kind='bond', S=1, topo=0, tables='both', mode='twice-same-map', cost=30)
@@ -95,8 +100,10 @@ def body(ctx, p):
         rows_s[p['kind2']] = 2
         rows_o[p['kind2']] = 2
         terms_s[p['kind2']] = 1
-    a, sp = build_state(ctx, 's', Ns, terms=terms_s, coeff_rows=rows_s, atom_rows=3 if p.get('no_pair') else 2, extra=xs, pair_coeffs=(p.get('no_pair') is not True))
-    o, so = build_state(ctx, 'o', No, terms={}, coeff_rows=rows_o, atom_rows=2, extra=xo, pair_coeffs=not p.get('no_pair'))
+    a, sp = build_state(ctx, 's', Ns, terms=terms_s, coeff_rows=rows_s, atom_rows=3 if p.get('no_pair') else 2, extra=xs, pair_coeffs=(p.get('no_pair') is not True),
+                        fixed_width_extra=bool(p.get('fixed_width')))
+    o, so = build_state(ctx, 'o' + ('ther-long-prefix' if p.get('fixed_width') else ''), No, terms={}, coeff_rows=rows_o, atom_rows=2, extra=xo,
+                        pair_coeffs=not p.get('no_pair'), fixed_width_extra=bool(p.get('fixed_width')))
     # other's terms: concrete topology, symbolic type ids
     okinds = [kind] + ([p['kind2']] if p.get('kind2') else [])
     for k in okinds:
